@@ -333,7 +333,8 @@ PROPS["C17"] = _tx("C17", ["C17_limit_after_reset", "C17_limit_after_restart", "
     "nothing; the send arm emits exactly the marked PDU once and clears the mark; no expiration, no mark); the closed-loop "
     "sentence 'k expirations, k retransmissions' over a whole idle run is not a separate theorem (exercised by the lock-step "
     "scripts); for the receiver's NAK rounds: progress resets the count, a round without progress below the limit keeps it and emits one NAK. Counter::update's while loop is modelled by its closed form (timeout > 0).")
-PROPS["C19"] = _tx("C19", ["C19_receiver_silent", "C19_sender_silent", "C19_paused_timers_do_not_count", "C19_sender_resume_fresh"], ["recv", "send"],
+PROPS["C19"] = _tx("C19", ["C19_receiver_silent", "C19_sender_silent", "C19_paused_timers_do_not_count", "C19_sender_resume_fresh",
+                           "C19_receiver_resume_picks_up"], ["recv", "send"],
     "Proof for both machines: in a suspended state the send arm and the timeout arm of the loop are disabled for any "
     "suspension length, and no operation whatsoever (received PDUs included) emits a PDU or declares a timer-limit "
     "fault; paused timers do not count suspended time, and a resumed send transaction starts its timers afresh "
@@ -343,7 +344,8 @@ PROPS["C19"] = _tx("C19", ["C19_receiver_silent", "C19_sender_silent", "C19_paus
     " 'After resume the transfer continues and completes exactly as an unsuspended one would' is inherited from C02 "
     "and not claimed as a theorem (partial).")
 PROPS["C20"] = _tx("C20", ["C20_receiver_progress_invariant", "C20_receiver_progress_initial",
-                           "C20_receiver_outputs_carry_progress", "C20_sender_progress_step"], ["recv", "send", "segments"],
+                           "C20_receiver_outputs_carry_progress", "C20_sender_progress_step",
+                           "C20_keepalive_carries_progress"], ["recv", "send", "segments"],
     "Proof: receiver progress = total of the well-formed segment list (= distinct bytes held, by C09) in every reachable "
     "state, and the Fault/Abandon/Resumed/KeepAlive outputs carry that value; sender progress after every step = max of "
     "the previous progress and the highest end offset of the file data PDUs emitted (hence the highest offset transmitted "
